@@ -100,6 +100,25 @@ pub fn run(case: &Value, ctx: &Ctx) -> Outcome {
             other => out.fail(format!("statrel/value-error/{name}"), json!(format!("{other:?}"))),
         }
     }
+    // (1b) the binary, ALL admissible statistics in one invocation (ratio statistics first): requesting one
+    // statistic must not change the value of another
+    {
+        let mut names: Vec<&String> = stats.keys().collect();
+        names.sort_by_key(|k| !matches!(k.as_str(), "f2" | "f3" | "f4" | "fst"));
+        let joined = names.iter().map(|k| cli_name(k)).collect::<Vec<_>>().join(",");
+        let text = cli::write_text(&cur_shape, &cur, 17);
+        let r = cli::sfs(ctx, &["stat", "-s", &joined, "--precision", "12"], Some(&text));
+        if r.ok() {
+            for (k, tok) in names.iter().zip(String::from_utf8_lossy(&r.stdout).trim().split(',')) {
+                let want = spec_value(&stats[k.as_str()]);
+                let got: f64 = tok.parse().unwrap_or(f64::NAN);
+                let ok = if want.is_finite() { (got - want).abs() <= 0.5e-12 + 1e-9 * want.abs().max(1.0) } else { stat_close(got, want, 0.0) };
+                out.check(ok, || format!("statrel/cli-together/{k}"), || json!({"stats": joined, "got": tok, "want": want.to_string()}));
+            }
+        } else {
+            out.fail("statrel/cli-together/error", json!({"stats": joined, "code": r.code, "stderr": r.stderr}));
+        }
+    }
     // (2) the relation itself, on the real values: unchanged or scaled by the factor
     let scaled: Vec<&str> = case["scaled"].as_array().unwrap().iter().map(|s| s.as_str().unwrap()).collect();
     for c in case["claims"].as_array().unwrap() {
